@@ -33,7 +33,7 @@ CHECKS = {
          "DESIGN.md §2 C13"),
  "C01": ("proptest-generated producer scripts + fuel/fault/jitter scripts on real threads; exactly-once / order invariant over a global event log",
          "Schedule- and input-sampling: 1-6 real producer threads run generated op scripts against the real queue and writer thread; stream results, writer progress (fuel gate), perturbation points, whether the end meets a backlog and whether it is shut_down() or forget() + last-handle drop are part of the generated case. After shutdown the event log must show every appended entry exactly once, per-producer order, only rate-limited in-band reports as extras.",
-         "Interleavings inside crossbeam/std/tokio primitives are sampled natively, not enumerated; absence is not claimed. Trusts the event log (one mutex, linearised).",
+         "Interleavings inside crossbeam/std/tokio primitives are sampled natively, not enumerated; absence is not claimed. Trusts the event log (one mutex, linearised). One placement is owned rather than sampled: c01-append-during-flush-then-shutdown holds the writer inside stream.flush() while entries are appended and the end of the queue's life begins.",
          "DESIGN.md §2 C01"),
  "C04": ("stateful proptest over the real WakerTracker (hook H2a) with a model ring buffer + thread-level fuel-gated runs; barrier invariant over the event log; liveness by counting pops",
          "Two levels: (1) model-based state-machine exploration of the real WakerTracker with real FlushSignals: barrier (S1), busy-loop freedom (S2) and bounded completion (L1, counted in handle calls / written entries); (2) real queue with a fuel-gated stream and a producer that keeps the queue non-empty: completion within capacity+128 written entries, barrier over the log, immediate completion after shutdown; (3) 0-240 flush requests from 1-4 threads while the writer is held inside the stream: none may complete before its barrier.",
